@@ -92,7 +92,7 @@ func (s *Sys) liveCount() int {
 func (s *Sys) Enabled() []Op {
 	var ops []Op
 	for k := 0; k < s.Keys; k++ {
-		for v := 0; v < s.Vals; v++ {
+		for v := 1; v <= s.Vals; v++ { // values start at 1: a zero value in a node means "holds nothing"
 			ops = append(ops, Op{"add", k, v})
 		}
 		ops = append(ops, Op{"rem", k, 0}, Op{"get", k, 0})
@@ -219,6 +219,9 @@ func (s *Sys) invariants(o Op) (string, string) {
 	nodes, problems, idx := iterable.VerifMapDump(s.m)
 	if len(problems) > 0 {
 		return "inv:structure", fmt.Sprintf("after %v: %s", o, strings.Join(problems, "; "))
+	}
+	if n := nodes[len(nodes)-1]; n.Val != 0 {
+		return "inv:sentinel-holds-value", fmt.Sprintf("after %v: the tail sentinel (a recycled node) still holds the value %d of an entry that is gone; nodes=%v", o, n.Val, nodes)
 	}
 	parked := make([]int, len(nodes))
 	for i, it := range s.its {
